@@ -53,6 +53,8 @@ impl<K, V: OwnView> OwnView for VMap<K, V> { uninterp spec fn own(&self) -> Own;
 pub broadcast axiom fn vmap_of_weak_values_is_weak<K, V: OwnView>(m: &VMap<K, V>) requires forall|v: V| no_strong(#[trigger] v.own()) ensures no_strong(#[trigger] m.own());
 impl<T> VMap<ContextID, WeakSender<T>> {
     pub uninterp spec fn view(&self) -> Map<int, int>;         // context id -> subscriber's mailbox
+    #[verifier::external_body] pub fn is_empty(&self) -> (r: bool) ensures r <==> self@.dom() =~= Set::<int>::empty() { unimplemented!() }
+    #[verifier::external_body] pub fn len(&self) -> (r: usize) ensures (r == 0) <==> self@.dom() =~= Set::<int>::empty() { unimplemented!() }
     #[verifier::external_body]
     pub fn insert(&mut self, k: ContextID, v: WeakSender<T>) -> (r: Option<WeakSender<T>>) ensures final(self)@ == old(self)@.insert(k.0 as int, v.chan()) { unimplemented!() }
     #[verifier::external_body]
